@@ -203,3 +203,73 @@ SETITEM_ARR = REG.add(Contract(
 def no_such_key_k(c):
     v = cv(c, old=True)
     return forall(p, z3.Implies(v.inrange(p), v.sess_at(p) != c.a["key"].t))
+
+
+# ---------------------------------------------------------------- set_data: everything after `data = np.asarray(array_like)` (C14, C16)
+# Located structurally on every run: the statements of LASFile.set_data that follow the assignment `data = np.asarray(array_like)`,
+# up to the end of the function.  numpy expressions (data.size, data.shape[1], data[:, i]) are opaque values (abstract_exprs).
+# Case: names=None (the caller gives no names).  Contract:
+#  * frame: only the curve list (new placeholder curves appended), session mnemonics / data of curve items; NOTHING on the LASFile
+#    itself - in particular not index_initial, the snapshot write() compares the index with (C16);
+#  * every normal exit has re-numbered the session names (the call of assign_duplicate_suffixes is reached on every path) - ghost flag
+#    set by a hook at that call, cleared by a hook at every assignment of a session mnemonic;
+#  * originals are never altered when no names are given; the curves that existed before keep their place.
+from pyvc import blocks as BL
+import ast as _ast2
+
+
+def _sd_body(E):
+    fn = E.funcs["las.LASFile.set_data"]
+    for k, s in enumerate(fn.body):
+        if (_ast2.get_source_segment(E.src["las"], s) or "").strip().startswith("data = np.asarray(array_like)"):
+            return fn.body[k + 1:], fn
+    from pyvc.state import OutOfSubset
+    raise OutOfSubset("`data = np.asarray(array_like)` not found at the top level of LASFile.set_data")
+
+
+def sd_verify(E, c):
+    body, fn = _sd_body(E)
+    return E.verify(c, fnode=fn, body=body, module="las")
+
+
+def sd_init(c, st):
+    st.ghost["$renumbered"] = z3.BoolVal(True)
+
+
+def sd_hook_ads(c, st):
+    st.ghost["$renumbered"] = z3.BoolVal(True)
+
+
+def sd_hook_rename(c, st):
+    st.ghost["$renumbered"] = z3.BoolVal(False)
+
+
+def sd_kept(c):
+    v, v0 = cv(c), cv(c, old=True)
+    r_ = z3.Int("r_sd")
+    return las_shape(c) + [("allocation-only-grows", forall(r_, z3.Implies(z3.Select(c.old("$alloc"), r_), z3.Select(c.h("$alloc"), r_)))), ("existing-curves-keep-their-place", z3.And(v.n >= v0.n, v.s == v0.s,
+                                                        forall(q, z3.Implies(z3.And(0 <= q, q < v0.n), v.item(q) == v0.item(q))))),
+            ("later-curves-are-new-placeholders", forall(q, z3.Implies(z3.And(v0.n <= q, q < v.n), z3.And(
+                z3.Not(z3.Select(c.old("$alloc"), v.item(q))), z3.Select(v.alloc, v.item(q)), v.item(q) != v.s)))),
+            ("originals-of-existing-curves-kept", forall(q, z3.Implies(z3.And(0 <= q, q < v0.n),
+                                                                        z3.Select(v.orig, v.item(q)) == z3.Select(v0.orig, v.item(q))))),
+            ("LASFile-object-untouched", z3.And(*[z3.Select(c.h(f), c.a["self"].t) == z3.Select(c.old(f), c.a["self"].t)
+                                                   for f in ("index_initial", "index_unit", "$sec_Curves", "$sec_Well", "$sec_Version", "$sec_Parameter")]))]
+
+
+SET_DATA = REG.add(Contract(
+    "las.LASFile.set_data#after-asarray", case="names=None",
+    params={"self": LAS, "data": OBJ, "names": NONE, "truncate": BOOL},
+    requires=las_shape,
+    ensures=lambda c: sd_kept(c) + [("session-names-renumbered-after-the-last-rename (assign_duplicate_suffixes reached on every path)",
+                                     c.g("$renumbered"))],
+    modifies=dict(NEW_FRAME, data=None),
+    loops={0: lambda c: sd_kept(c) + [("renumbered-flag", c.g("$renumbered"))],
+           1: lambda c: sd_kept(c) + [("renumbered-flag", c.g("$renumbered"))],
+           2: lambda c: sd_kept(c)},
+    loop_ghost={0: ["$renumbered"], 1: ["$renumbered"], 2: ["$renumbered"]},
+    ghost_init=sd_init,
+    hooks={"self.curves.assign_duplicate_suffixes()": sd_hook_ads, "curve.mnemonic = names[i]": sd_hook_rename},
+    use=USE, abstract_exprs=True, may_raise=["Any"], verify_with=sd_verify, prune=True,
+    properties=("C14", "C16")))
+SET_DATA.note = "numpy expressions are opaque; the DataFrame branch and np.asarray above the block are outside the contract"
